@@ -29,6 +29,10 @@ import (
 //	      api: unary unaryvoid producer producerh exchange exchangeh dynamich
 //	describe <pipe|http>      __describe__ over that transport, decoded
 //	hash                      Server.ProtocolHash()
+//	httpopt <k=v>…            (re)build the HttpServer with these options: name (SetProtocolName), prefix, comp
+//	                          (compression level), ae (Accept-Encoding the client sends), cors, corsage, pages, repo,
+//	                          sticky, maxreq, maxresp, batchlimit, cache, auth, initpages
+//	setsid xID / setsvc xNAME Server.SetServerID / SetServiceName AFTER the HttpServer exists
 //	perm <k>                  rebuild the final surface (last registration of every name) on a fresh
 //	                          server in the k-th shuffled order, other server id / protocol version;
 //	                          it becomes the current server; describe it
@@ -223,6 +227,8 @@ type c09State struct {
 	srv                   *vgirpc.Server
 	ts                    *httptest.Server
 	regs                  []c09Reg
+	opts                  []string // httpopt k=v words the HttpServer is built with
+	prefix, accept        string
 }
 
 func (st *c09State) close() {
@@ -394,11 +400,23 @@ func c09DescribeBody(st *c09State, tr string) ([]byte, string) {
 		return out.Bytes(), ""
 	}
 	if st.ts == nil {
-		st.ts = httptest.NewServer(vgirpc.NewHttpServer(st.srv))
+		c09BuildHTTP(st)
 	}
-	hr, _ := http.NewRequest("POST", st.ts.URL+"/__describe__", &req)
+	hr, _ := http.NewRequest("POST", st.ts.URL+st.prefix+"/__describe__", &req)
 	hr.Header.Set("Content-Type", "application/vnd.apache.arrow.stream")
-	resp, err := http.DefaultClient.Do(hr)
+	switch st.accept {
+	case "zstd":
+		hr.Header.Set("Accept-Encoding", "zstd")
+	case "gzip":
+		hr.Header.Set("Accept-Encoding", "gzip")
+	case "xzstd":
+		hr.Header.Set("X-VGI-Accept-Encoding", "zstd, gzip")
+		hr.Header.Set("Accept-Encoding", "identity")
+	default:
+		hr.Header.Set("Accept-Encoding", "identity")
+	}
+	hr.Header.Set("Origin", "https://app.example")
+	resp, err := (&http.Client{Transport: &http.Transport{DisableCompression: true}}).Do(hr)
 	if err != nil {
 		return nil, "http"
 	}
@@ -407,8 +425,79 @@ func c09DescribeBody(st *c09State, tr string) ([]byte, string) {
 	if resp.StatusCode != 200 {
 		return body, "http-status-" + strconv.Itoa(resp.StatusCode)
 	}
+	enc := strings.TrimSpace(resp.Header.Get("Content-Encoding"))
+	if enc == "" {
+		enc = strings.TrimSpace(resp.Header.Get("X-VGI-Content-Encoding"))
+	}
+	if enc != "" && !strings.EqualFold(enc, "identity") {
+		dec, derr := vgirpc.DecodeContentEncoding(body, enc, 1<<28)
+		if derr != nil {
+			return body, "content-encoding-" + enc
+		}
+		body = dec
+	}
 	return body, ""
 }
+
+// c09BuildHTTP creates the HttpServer around the current Server with the scripted options.
+func c09BuildHTTP(st *c09State) {
+	hs := vgirpc.NewHttpServer(st.srv)
+	st.prefix, st.accept = "", ""
+	for _, w := range st.opts {
+		k, v, _ := strings.Cut(w, "=")
+		str := func() string { b, _ := UnX(v); return string(b) }
+		num := func() int { n, _ := strconv.Atoi(v); return n }
+		switch k {
+		case "name":
+			hs.SetProtocolName(str())
+		case "prefix":
+			hs.SetPrefix(str())
+			st.prefix = str()
+		case "comp":
+			hs.SetCompressionLevel(num())
+		case "ae":
+			st.accept = v
+		case "cors":
+			hs.SetCorsOrigins(str())
+		case "corsage":
+			hs.SetCorsMaxAge(num())
+		case "pages":
+			n := num()
+			hs.SetEnableLandingPage(n&1 != 0)
+			hs.SetEnableDescribePage(n&2 != 0)
+			hs.SetEnableNotFoundPage(n&4 != 0)
+		case "repo":
+			hs.SetRepoURL(str())
+		case "sticky":
+			if v == "1" {
+				hs.EnableSticky(0)
+				hs.SetStickyEchoHeaders(map[string]string{"VGI-Echo-Zone": "z1"})
+			}
+		case "maxreq":
+			hs.SetMaxRequestBytes(int64(num()))
+		case "maxresp":
+			hs.SetMaxResponseBytes(int64(num()))
+		case "batchlimit":
+			hs.SetProducerBatchLimit(num())
+		case "cache":
+			hs.SetCallStateCacheEntries(num())
+		case "auth":
+			if v == "1" {
+				hs.SetAuthenticate(func(*http.Request) (*vgirpc.AuthContext, error) {
+					return &vgirpc.AuthContext{Domain: "bearer", Authenticated: true, Principal: "alice"}, nil
+				})
+			}
+		case "initpages":
+			if v == "1" {
+				hs.InitPages()
+			}
+		}
+	}
+	st.ts = httptest.NewServer(hs)
+}
+
+var c09OptKeys = map[string]bool{"name": true, "prefix": true, "comp": true, "ae": true, "cors": true, "corsage": true, "pages": true,
+	"repo": true, "sticky": true, "maxreq": true, "maxresp": true, "batchlimit": true, "cache": true, "auth": true, "initpages": true}
 
 func c09Decode(body []byte) *c09Desc {
 	d := &c09Desc{meta: map[string]string{}}
@@ -705,6 +794,51 @@ func c09Exec(c *Case) {
 			}
 			last = nil
 			c.Out(line, "ok")
+		case "httpopt":
+			ok := true
+			for _, w := range f[1:] {
+				k, v, has := strings.Cut(w, "=")
+				if !has || !c09OptKeys[k] {
+					ok = false
+				}
+				if k == "name" || k == "prefix" || k == "cors" || k == "repo" {
+					if _, good := UnX(v); !good {
+						ok = false
+					}
+				}
+			}
+			if !ok {
+				c.Out(l, "err:bad-op")
+				continue
+			}
+			st.close()
+			st.opts = append([]string{}, f[1:]...)
+			c09BuildHTTP(st)
+			for _, w := range f[1:] {
+				k, _, _ := strings.Cut(w, "=")
+				c.Stat("httpopt:" + k)
+			}
+			c.Out(l, "ok")
+		case "setsid", "setsvc":
+			if len(f) != 2 {
+				c.Out(l, "err:bad-op")
+				continue
+			}
+			b, ok := UnX(f[1])
+			if !ok {
+				c.Out(l, "err:bad-op")
+				continue
+			}
+			if f[0] == "setsid" {
+				st.srv.SetServerID(string(b))
+				st.serverID = string(b)
+			} else {
+				st.srv.SetServiceName(string(b))
+				st.service = string(b)
+			}
+			last = nil
+			c.Stat(f[0])
+			c.Out(l, "ok")
 		case "describe":
 			if len(f) != 2 || (f[1] != "pipe" && f[1] != "http") {
 				c.Out(l, "err:bad-op")
@@ -778,6 +912,7 @@ func c09Exec(c *Case) {
 				sid2 = ""
 			}
 			st = c09NewServer(old.service, sid2, !old.pvSet || k%2 == 0, pv2)
+			st.opts = old.opts
 			old.close()
 			c.Out(c09NewLine(st), "ok")
 			for _, n := range names {
